@@ -889,6 +889,10 @@ func (a *A) ruleAdvanceByOne(W *types.Named, initFns map[string]string) {
 				a.Ok(construct, st.Pos(), "the current interval is replaced by NextSlot()")
 				continue
 			}
+			if _, isInit := initFns[fname(fn)]; isInit && a.isMoveBackForAcceptedRow(fn, st, W) {
+				a.Ok(construct, st.Pos(), "moved back to the interval of an accepted (not late) row that lies before the current interval: nothing from that interval onwards has fired, and no buffered row is skipped by moving back")
+				continue
+			}
 			if why, isInit := initFns[fname(fn)]; isInit {
 				// initialisation: allowed only while the window is not initialised
 				initF := a.FieldOf(W, "initialized")
@@ -1111,4 +1115,63 @@ func (a *A) ruleBufferArrivalOrder(W *types.Named) {
 func isZeroConst(v ssa.Value) bool {
 	k, ok := v.(*ssa.Const)
 	return ok && k.Value != nil && k.Int64() == 0
+}
+
+// isMoveBackForAcceptedRow: the store sets currentSlot to createSlotFromStart(alignWindowStart(ts, …))
+// and is reachable only when ts.Before(*currentSlot.Start) holds and the row is not late
+// (IsEventTimeLate(ts) false, or there is no watermark).
+func (a *A) isMoveBackForAcceptedRow(fn *ssa.Function, st *ssa.Store, W *types.Named) bool {
+	c, ok := st.Val.(*ssa.Call)
+	if !ok || c.Call.StaticCallee() == nil || c.Call.StaticCallee().Name() != "createSlotFromStart" || len(c.Call.Args) < 2 {
+		return false
+	}
+	al, ok := c.Call.Args[1].(*ssa.Call)
+	if !ok || al.Call.StaticCallee() == nil || al.Call.StaticCallee().Name() != "alignWindowStart" {
+		return false
+	}
+	ts := al.Call.Args[0]
+	curF := a.FieldOf(W, "currentSlot")
+	wmF := a.FieldOf(W, "watermark")
+	isBefore := func(v ssa.Value) bool {
+		cc, ok := v.(*ssa.Call)
+		if !ok || calleeFull(&cc.Call) != "(time.Time).Before" || cc.Call.Args[0] != ts {
+			return false
+		}
+		t := TermOf(cc.Call.Args[1], nil)
+		return strings.Contains(t.String(), "currentSlot") && strings.Contains(t.String(), "Start") && curF != nil
+	}
+	isLate := func(v ssa.Value) bool {
+		cc, ok := v.(*ssa.Call)
+		return ok && cc.Call.StaticCallee() != nil && cc.Call.StaticCallee().Name() == "IsEventTimeLate" && len(cc.Call.Args) == 2 && cc.Call.Args[1] == ts
+	}
+	isNoWatermark := func(v ssa.Value) bool {
+		bo, ok := v.(*ssa.BinOp)
+		if !ok || bo.Op != token.EQL || !isNilConst(bo.Y) {
+			return false
+		}
+		t := TermOf(bo.X, nil)
+		return t.Kind == "field" && t.Field == wmF
+	}
+	// not reachable when the row is not earlier than the current interval
+	if reachUnder(fn, st, func(v ssa.Value) Tri {
+		if isBefore(v) {
+			return F
+		}
+		return U
+	}) {
+		return false
+	}
+	// not reachable for a late row
+	if reachUnder(fn, st, func(v ssa.Value) Tri {
+		if isLate(v) {
+			return T
+		}
+		if isNoWatermark(v) {
+			return F
+		}
+		return U
+	}) {
+		return false
+	}
+	return true
 }
